@@ -130,6 +130,10 @@ PoolEnv(m) == [number |-> m + 1 + WClose, epoch |-> EpochOf(m), tip |-> m]
 (* the epoch the pool assumes is the TIP's (conservative); the earliest possible commit lies later:    *)
 (* between the two the rule text leaves the pool's answer open                                         *)
 PoolEnvLate(m) == [number |-> m + 1 + WClose, epoch |-> EpochOf(m + 1 + WClose), tip |-> m]
+(* A transaction whose id is ALREADY proposed on the chain: in the gap (proposed less than WClose blocks below the next   *)
+(* block) the earliest commit is tip + WClose; once it is inside the window (stage Proposed) the next block can commit it. *)
+PoolEnvGap(m) == [number |-> m + WClose, epoch |-> EpochOf(m + WClose), tip |-> m]
+PoolEnvProposed(m) == [number |-> m + 1, epoch |-> EpochOf(m + 1), tip |-> m]
 PoolVerdict(x, ov, m, tx) ==
   LET a == Verdict(x, ov, PoolEnv(m), tx)
       b == Verdict(x, ov, PoolEnvLate(m), tx)
